@@ -640,7 +640,7 @@ pub fn strip_union_coercion_projections(text: &str) -> String {
         }
         let (parent_union, parent_shift) = stack.last().map(|&(_, u, s)| (u, s)).unwrap_or((false, 0));
         if parent_union && is_coercion(l) {
-            stack.push((ind, false, parent_shift + 2));
+            stack.push((ind, true, parent_shift + 2));
             continue;
         }
         let t = l.trim_start();
